@@ -14,9 +14,9 @@ from props import _nfamily
 from props.c11 import dump_tree, diff_tree
 from common import cerberus, real_error, canon_errors
 
-LEVEL = "exploration"
-COQ_FILES = ["theories/Model/Normalize.v"]
-FACT_GROUPS = ["F16"]
+LEVEL = "proof"
+COQ_FILES = ['theories/Model/Instance.v', 'theories/Proofs/InstanceProofs.v', 'theories/Properties/C07.v']
+FACT_GROUPS = ['F16']
 ALLOWED_AXIOMS = []
 TRUSTED_BASE = _nfamily.BASE_TRUSTED + ["oracle: used instance vs fresh instance on verdict, error keys, both error trees, processed document, errors property"]
 ASSUMPTIONS = _nfamily.BASE_ASSUMPTIONS
